@@ -25,12 +25,15 @@ import (
 	"io"
 	"math/rand"
 	"mime/multipart"
+	"net"
+	"net/http"
 	"net/http/httptest"
 	"net/url"
 	"os"
 	"os/exec"
 	"runtime"
 	"strings"
+	"sync"
 	"sync/atomic"
 	"time"
 	"unsafe"
@@ -50,6 +53,7 @@ import (
 	"github.com/metrico/qryn/writer/service"
 	"github.com/metrico/qryn/writer/service/impl"
 	"github.com/metrico/qryn/writer/service/registry"
+	"github.com/metrico/qryn/writer/utils/helpers"
 	"github.com/metrico/qryn/writer/utils/logger"
 	"github.com/metrico/qryn/writer/utils/numbercache"
 	"github.com/metrico/qryn/writer/utils/proto/logproto"
@@ -67,8 +71,31 @@ import (
 type KV [2]string
 
 type BodyGen struct {
-	Kind  string `json:"kind"`  // "prom_big": snappy(WriteRequest with one label value of Bytes 'a's); "gzip_loki_line", "gzip_fill"
+	// "prom_big": snappy(WriteRequest with one label value of Bytes 'a's); "gzip_loki_line", "gzip_fill";
+	// "limit_payload": a well-formed payload of Route of exactly Bytes bytes, encoded as the Content-Encoding header says
+	Kind  string `json:"kind"`
 	Bytes int    `json:"bytes"` // size parameter
+	Route string `json:"route,omitempty"`
+}
+
+// FrameDesc describes a case of stream "frame" (NDJSON bodies) to the Coq model: the lines, how the body ends.
+type FrameLine struct {
+	Len  int    `json:"len"`            // bytes before the newline
+	OK   bool   `json:"ok"`             // a line the handler accepts
+	Rows int    `json:"rows"`           // rows it stores
+	Kind string `json:"kind,omitempty"` // elastic bulk: "action" | "doc"
+}
+type FrameDesc struct {
+	Dec     string      `json:"dec"` // datadogCFRequestDec elasticBulkDec zipkinNDDecoderV2
+	Lines   []FrameLine `json:"lines"`
+	Tail    *FrameLine  `json:"tail,omitempty"` // unterminated rest
+	ReadErr bool        `json:"read_err,omitempty"`
+}
+
+// LimDesc describes a case of stream "limit" to the Coq model.
+type LimDesc struct {
+	CE      string `json:"ce"`
+	Decoded int    `json:"decoded"` // bytes of the payload before Content-Encoding
 }
 
 type Req struct {
@@ -77,6 +104,8 @@ type Req struct {
 	Headers []KV     `json:"headers,omitempty"`
 	BodyHex string   `json:"body_hex,omitempty"`
 	BodyGen *BodyGen `json:"body_gen,omitempty"`
+	// > 0: the body reader fails after this many bytes (a connection that breaks / a read deadline that passes)
+	FailAfter int `json:"fail_after,omitempty"`
 }
 
 type ZSpan struct {
@@ -142,18 +171,29 @@ type Obs struct {
 	Ms      int64  `json:"ms"`
 	AllocKB int64  `json:"alloc_kb"`
 	BodyLen int    `json:"body_len"`
-	Canary  string `json:"canary,omitempty"` // outcome of the follow-up well-formed request on the same route family ("" = not sent)
-	Detail  string `json:"detail,omitempty"`
+	// what the Content-Encoding of the request decodes to (counted by the harness up to Limit+2 bytes; the body itself
+	// without an encoding or when it does not decode), and the decoded-size limit the router was configured with
+	DecodedLen int            `json:"decoded_len"`
+	Limit      int            `json:"limit"`
+	Rows       map[string]int `json:"rows,omitempty"`   // rows that reached the fake back-end while the request was served, by table
+	Canary     string         `json:"canary,omitempty"` // outcome of the follow-up well-formed request on the same route family ("" = not sent)
+	Detail     string         `json:"detail,omitempty"`
 }
 
 type Case struct {
-	ID     int    `json:"id"`
-	Stream string `json:"stream"` // struct | bytes
-	Class  string `json:"class"`
-	Req    Req    `json:"req"`
-	D      *Desc  `json:"d,omitempty"`
-	Obs    *Obs   `json:"obs,omitempty"`
+	ID     int        `json:"id"`
+	Stream string     `json:"stream"` // struct | bytes
+	Class  string     `json:"class"`
+	Req    Req        `json:"req"`
+	D      *Desc      `json:"d,omitempty"`
+	L      *LimDesc   `json:"l,omitempty"`
+	F      *FrameDesc `json:"f,omitempty"`
+	FModel *FrameDesc `json:"f_model,omitempty"` // what the model is told when the reader fails part-way (else F itself)
+	Obs    *Obs       `json:"obs,omitempty"`
 }
+
+// decodedLimit: pbPool.limit of writer/utils/helpers the router under test runs with (helpers.SetGlobalLimit(2*decodedLimit))
+var decodedLimit = 1 << 20
 
 // ------------------------------------------------------------------ fake ClickHouse client
 
@@ -173,8 +213,32 @@ func (fakeClient) Do(ctx context.Context, q ch.Query) error {
 		}
 		rows = n
 	}
+	if rows > 0 {
+		tbl := "?"
+		if f := strings.Fields(q.Body); len(f) >= 3 && strings.EqualFold(f[0], "INSERT") {
+			tbl = strings.Trim(f[2], "`(")
+		}
+		rowsMu.Lock()
+		rowsByTable[tbl] += rows
+		rowsMu.Unlock()
+	}
 	return nil
 }
+
+// rows handed to the fake back-end, by table (Do calls of the insert services)
+var rowsMu sync.Mutex
+var rowsByTable = map[string]int{}
+
+func rowsSnapshot() map[string]int {
+	rowsMu.Lock()
+	defer rowsMu.Unlock()
+	m := map[string]int{}
+	for k, v := range rowsByTable {
+		m[k] = v
+	}
+	return m
+}
+
 func (fakeClient) Exec(ctx context.Context, query string, args ...any) error { return nil }
 func (fakeClient) Scan(ctx context.Context, req string, args []any, dest ...interface{}) error {
 	return nil
@@ -207,6 +271,7 @@ func (fakeClient) Close() error { return nil }
 
 func setup() *mux.Router {
 	logger.Logger.SetOutput(io.Discard)
+	helpers.SetGlobalLimit(2 * decodedLimit) // what RegisterRoutes does with http_settings.input_buffer_mb
 	config.Cloki = clconfig.New(clconfig.CLOKI_WRITER, nil, "", "")
 	config.Cloki.Setting.SYSTEM_SETTINGS.RetryAttempts = 1
 	config.Cloki.Setting.SYSTEM_SETTINGS.RetryTimeoutS = 0
@@ -444,6 +509,10 @@ func (c *Case) body(r *rand.Rand) []byte {
 			return gz([]byte(`{"streams":[{"stream":{"app":"a"},"values":[["1700000000000000000","` + strings.Repeat("a", c.Req.BodyGen.Bytes) + `"]]}]}`))
 		case "gzip_fill":
 			return gz(bytes.Repeat([]byte{'a'}, c.Req.BodyGen.Bytes))
+		case "frame":
+			return frameBody(c.F)
+		case "limit_payload":
+			return encodeAs(c.header("Content-Encoding"), limitPayload(c.Req.BodyGen.Route, c.Req.BodyGen.Bytes))
 		}
 		panic("unknown body_gen")
 	}
@@ -452,6 +521,237 @@ func (c *Case) body(r *rand.Rand) []byte {
 		panic(err)
 	}
 	return b
+}
+
+func (c *Case) header(name string) string {
+	for _, kv := range c.Req.Headers {
+		if kv[0] == name {
+			return kv[1]
+		}
+	}
+	return ""
+}
+
+func encodeAs(ce string, b []byte) []byte {
+	switch ce {
+	case "gzip":
+		return gz(b)
+	case "snappy":
+		var buf bytes.Buffer
+		w := snappy.NewBufferedWriter(&buf)
+		w.Write(b)
+		w.Close()
+		return buf.Bytes()
+	}
+	return b
+}
+
+// decodedLen: how many bytes the Content-Encoding of the request decodes to, counted up to max
+func decodedLen(ce string, body []byte, max int) int {
+	var rd io.Reader
+	switch ce {
+	case "gzip":
+		g, err := gzip.NewReader(bytes.NewReader(body))
+		if err != nil {
+			return len(body)
+		}
+		rd = g
+	case "snappy":
+		rd = snappy.NewReader(bytes.NewReader(body))
+	default:
+		return len(body)
+	}
+	n, _ := io.Copy(io.Discard, io.LimitReader(rd, int64(max)))
+	return int(n)
+}
+
+// ------------------------------------------------------------------ stream "limit": payloads of an exact size
+
+type limitRoute struct {
+	name, path, ct string
+}
+
+var limitRoutes = []limitRoute{
+	{"loki", "/loki/api/v1/push", "application/json"},
+	{"elastic", "/logs/_doc", "application/json"},
+	{"zipkin", "/tempo/spans", "application/json"},
+	{"otlp", "/v1/traces", "application/x-protobuf"},
+}
+
+// a well-formed payload of the route, exactly n bytes long (n >= 1024): one long string inside it carries the size
+func limitPayload(route string, n int) []byte {
+	pad := func(pre, post string) []byte {
+		k := n - len(pre) - len(post)
+		if k < 0 {
+			panic("limit payload too small")
+		}
+		return []byte(pre + strings.Repeat("a", k) + post)
+	}
+	switch route {
+	case "loki":
+		return pad(`{"streams":[{"stream":{"app":"a"},"values":[["1700000000000000000","`, `"]]}]}`)
+	case "elastic":
+		return pad(`{"level":"info","message":"`, `"}`)
+	case "zipkin":
+		return pad(`[{"traceId":"d6e9329d67b6146c0000000000000001","id":"1234ef4600000001","name":"`, `","timestamp":1700000000000000,"duration":1000,"localEndpoint":{"serviceName":"limit"}}]`)
+	case "otlp":
+		k := n - 200
+		for tries := 0; tries < 8; tries++ {
+			sp := &tracev1.Span{TraceId: bytes.Repeat([]byte{7}, 16), SpanId: bytes.Repeat([]byte{9}, 8), Name: "limit",
+				StartTimeUnixNano: 1700000000000000000, EndTimeUnixNano: 1700000000000001000,
+				Attributes: []*commonv1.KeyValue{{Key: "pad", Value: anyStr(strings.Repeat("a", k))}}}
+			req := &tracev1.TracesData{ResourceSpans: []*tracev1.ResourceSpans{{
+				Resource:   &resourcev1.Resource{Attributes: []*commonv1.KeyValue{{Key: "service.name", Value: anyStr("limit")}}},
+				ScopeSpans: []*tracev1.ScopeSpans{{Spans: []*tracev1.Span{sp}}}}}}
+			b, err := proto.Marshal(req)
+			if err != nil {
+				panic(err)
+			}
+			if len(b) == n {
+				return b
+			}
+			k += n - len(b)
+		}
+		panic("otlp limit payload: size does not converge")
+	}
+	panic("unknown limit route " + route)
+}
+
+// ---- stream "frame": NDJSON bodies for the three bufio.Scanner loops
+
+const frameMaxToken = 16 * 1024 * 1024
+
+func padTo(pre, post string, n int) string {
+	k := n - len(pre) - len(post)
+	if k < 0 {
+		panic(fmt.Sprintf("frame line too short: %d < %d", n, len(pre)+len(post)))
+	}
+	return pre + strings.Repeat("a", k) + post
+}
+
+const bulkAction = `{"index":{"_index":"logs"}}`
+
+func frameLine(dec string, l FrameLine) string {
+	if l.Kind == "action" {
+		return bulkAction
+	}
+	if !l.OK {
+		// an object that does not end: refused by jx whatever follows
+		return padTo(`{"Outcome":"ok","message":"`, ``, l.Len)
+	}
+	switch dec {
+	case "datadogCFRequestDec":
+		return padTo(`{"EventTimestampMs":1700000000000,"Outcome":"ok","ScriptName":"s","Pad":"`, `"}`, l.Len)
+	case "elasticBulkDec":
+		return padTo(`{"level":"info","message":"`, `"}`, l.Len)
+	case "zipkinNDDecoderV2":
+		return padTo(`{"traceId":"d6e9329d67b6146c0000000000000001","id":"1234ef4600000001","name":"`, `","timestamp":1700000000000000,"duration":1000,"localEndpoint":{"serviceName":"frame"}}`, l.Len)
+	}
+	panic("unknown frame decoder " + dec)
+}
+
+func frameBody(f *FrameDesc) []byte {
+	var b bytes.Buffer
+	for _, l := range f.Lines {
+		b.WriteString(frameLine(f.Dec, l))
+		b.WriteByte('\n')
+	}
+	if f.Tail != nil {
+		b.WriteString(frameLine(f.Dec, *f.Tail))
+	}
+	return b.Bytes()
+}
+
+func genFrame(r *rand.Rand, id int) Case {
+	decs := []struct{ dec, path, ct string }{
+		{"datadogCFRequestDec", "/cf/v1/insert", "application/json"},
+		{"elasticBulkDec", "/_bulk", "application/json"},
+		{"zipkinNDDecoderV2", "/api/v2/spans", "ndjson"},
+	}
+	d := decs[r.Intn(len(decs))]
+	f := &FrameDesc{Dec: d.dec}
+	c := Case{ID: id, Stream: "frame", F: f}
+	c.Req.Path = d.path
+	c.Req.Headers = []KV{{"Content-Type", d.ct}}
+	if d.dec == "datadogCFRequestDec" {
+		c.Req.Query = []KV{{"ddsource", "cf"}}
+	}
+	class := "short"
+	lineLen := func() int { return 220 + r.Intn(400) }
+	special := -1
+	n := 1 + r.Intn(6)
+	switch k := r.Intn(100); {
+	case k < 4:
+		class, special = "16MiB", pick1(r, frameMaxToken-1, frameMaxToken, frameMaxToken+1, frameMaxToken-2)
+	case k < 30:
+		class, special = "64KiB", pick1(r, 65535, 65536, 65537, 70000, 131072, 1<<20)
+	}
+	at := r.Intn(n)
+	bad := -1
+	if r.Intn(5) == 0 {
+		bad = r.Intn(n)
+		class += "+refused-line"
+	}
+	for i := 0; i < n; i++ {
+		if d.dec == "elasticBulkDec" {
+			f.Lines = append(f.Lines, FrameLine{Len: len(bulkAction), OK: true, Rows: 0, Kind: "action"})
+		}
+		l := FrameLine{Len: lineLen(), OK: i != bad, Rows: 1, Kind: "doc"}
+		if i == at && special > 0 {
+			l.Len = special
+		}
+		f.Lines = append(f.Lines, l)
+	}
+	switch r.Intn(6) {
+	case 0: // the last line is not terminated
+		last := f.Lines[len(f.Lines)-1]
+		f.Lines = f.Lines[:len(f.Lines)-1]
+		f.Tail = &last
+		class += "+unterminated"
+	case 1: // the reader fails in the middle of the last line: what arrived of it is a truncated object
+		last := f.Lines[len(f.Lines)-1]
+		f.Lines = f.Lines[:len(f.Lines)-1]
+		cut := 100 + r.Intn(last.Len-150)
+		total := 0
+		for _, l := range f.Lines {
+			total += l.Len + 1
+		}
+		c.Req.FailAfter = total + cut
+		f.Tail = &FrameLine{Len: cut, OK: false, Rows: 1, Kind: "doc"}
+		// the body as generated still has the whole line; the model sees the cut one
+		c.Req.BodyGen = &BodyGen{Kind: "frame"}
+		full := *f
+		full.Tail = nil
+		full.Lines = append(append([]FrameLine{}, f.Lines...), last)
+		c.F = &full
+		c.FModel = f
+		f.ReadErr = true
+		class += "+read-error"
+	}
+	c.Req.BodyGen = &BodyGen{Kind: "frame"}
+	c.Class = "frame/" + d.dec + "/" + class
+	return c
+}
+
+func genLimit(r *rand.Rand, id int) Case {
+	rt := limitRoutes[r.Intn(len(limitRoutes))]
+	L := decodedLimit
+	sizes := []int{L - 4096, L - 1, L, L + 1, L + 2, L + 4096, 2 * L, 4*L + 3, 8 * L, 1024 + r.Intn(L), L + 1 + r.Intn(3*L)}
+	d := sizes[r.Intn(len(sizes))]
+	ce := pick(r, "", "gzip", "gzip", "snappy", "snappy")
+	c := Case{ID: id, Stream: "limit", L: &LimDesc{CE: ce, Decoded: d}}
+	c.Req.Path = rt.path
+	c.Req.Headers = []KV{{"Content-Type", rt.ct}}
+	if ce != "" {
+		c.Req.Headers = append(c.Req.Headers, KV{"Content-Encoding", ce})
+	}
+	c.Req.BodyGen = &BodyGen{Kind: "limit_payload", Bytes: d, Route: rt.name}
+	rel := "within"
+	if d > L {
+		rel = "over"
+	}
+	c.Class = "limit/" + rt.name + "/" + map[string]string{"": "plain", "gzip": "gzip", "snappy": "snappy"}[ce] + "/" + rel
+	return c
 }
 
 // ------------------------------------------------------------------ structured generator
@@ -1141,7 +1441,11 @@ func serve(router *mux.Router, c *Case, body []byte, deadline time.Duration) (ou
 	if len(q) > 0 {
 		u += "?" + q.Encode()
 	}
-	req := httptest.NewRequest("POST", u, bytes.NewReader(body))
+	var rd io.Reader = bytes.NewReader(body)
+	if k := c.Req.FailAfter; k > 0 && k <= len(body) {
+		rd = io.MultiReader(bytes.NewReader(body[:k]), failingReader{})
+	}
+	req := httptest.NewRequest("POST", u, rd)
 	for _, kv := range c.Req.Headers {
 		if kv[1] != "" || kv[0] != "Content-Type" {
 			req.Header.Set(kv[0], kv[1])
@@ -1168,6 +1472,12 @@ func serve(router *mux.Router, c *Case, body []byte, deadline time.Duration) (ou
 	case <-time.After(deadline):
 		return "hang", 0, "no response within " + deadline.String() + "; goroutines of the repository still running:\n" + repoStacks()
 	}
+}
+
+type failingReader struct{}
+
+func (failingReader) Read(p []byte) (int, error) {
+	return 0, fmt.Errorf("read tcp 127.0.0.1:3100: i/o deadline reached")
 }
 
 func firstN(s string, n int) string {
@@ -1250,11 +1560,22 @@ func worker(casesPath string, from int, deadline time.Duration) {
 		body := c.body(r)
 		runtime.ReadMemStats(&ms)
 		a0 := ms.TotalAlloc
+		rows0 := rowsSnapshot()
 		t0 := time.Now()
 		outcome, status, detail := serve(router, c, body, deadline)
-		o := &Obs{Outcome: outcome, Status: status, Ms: time.Since(t0).Milliseconds(), Detail: detail, BodyLen: len(body)}
+		rows1 := rowsSnapshot()
+		o := &Obs{Outcome: outcome, Status: status, Ms: time.Since(t0).Milliseconds(), Detail: detail, BodyLen: len(body), Limit: decodedLimit}
 		runtime.ReadMemStats(&ms)
 		o.AllocKB = int64((ms.TotalAlloc - a0) / 1024)
+		o.DecodedLen = decodedLen(c.header("Content-Encoding"), body, decodedLimit+2)
+		if c.Stream == "frame" {
+			o.Rows = map[string]int{}
+			for k, v := range rows1 {
+				if v > rows0[k] {
+					o.Rows[k] = v - rows0[k]
+				}
+			}
+		}
 		if outcome == "hang" {
 			emit(result{ID: id, Obs: o})
 			w.Flush()
@@ -1310,7 +1631,8 @@ func supervise(casesPath string, cases []Case, deadline time.Duration, maxBad in
 	from := 0
 	restarts := 0
 	for from < len(cases) {
-		cmd := exec.Command(os.Args[0], "--worker", "--cases", casesPath, "--from", fmt.Sprint(from), "--deadline-ms", fmt.Sprint(deadline.Milliseconds()))
+		cmd := exec.Command(os.Args[0], "--worker", "--cases", casesPath, "--from", fmt.Sprint(from), "--deadline-ms", fmt.Sprint(deadline.Milliseconds()),
+			"--decoded-limit", fmt.Sprint(decodedLimit))
 		pr, pw, _ := os.Pipe()
 		cmd.ExtraFiles = []*os.File{pw}
 		var stderr bytes.Buffer
@@ -1421,6 +1743,166 @@ func supervise(casesPath string, cases []Case, deadline time.Duration, maxBad in
 	}
 }
 
+// ------------------------------------------------------------------ stalled bodies over a real listener
+//
+// main.go httpStart serves the router with http.Serve(listener, router): a zero-value http.Server (no ReadTimeout,
+// no ReadHeaderTimeout).  stallMode serves the REAL writer router the same way on 127.0.0.1 (or with the timeouts given
+// on the command line -- the check passes what the translator reads from main.go) and plays a client that sends the
+// request line, the headers with the full Content-Length, the first Sent bytes of a well-formed body -- and then
+// nothing.  Observed after the window: was anything answered, is a goroutine still inside the repository's handler
+// code, is a second client served meanwhile, and does the goroutine end once the client closes the connection.
+
+type StallCase struct {
+	ID    int       `json:"id"`
+	Route string    `json:"route"`
+	Path  string    `json:"path"`
+	CT    string    `json:"ct"`
+	Total int       `json:"total"` // Content-Length announced
+	Sent  int       `json:"sent"`  // body bytes actually sent
+	Obs   *StallObs `json:"obs,omitempty"`
+}
+
+type StallObs struct {
+	Answered        bool   `json:"answered"` // a response arrived within the window
+	Status          int    `json:"status"`
+	StuckInHandler  bool   `json:"stuck_in_handler"` // at the end of the window a goroutine is inside controller/unmarshal code
+	Where           string `json:"where,omitempty"`  // its innermost repository frame
+	CanaryDuring    string `json:"canary_during"`    // a well-formed request on another connection during the stall
+	ReleasedMs      int64  `json:"released_ms"`      // after the client closed: time until no goroutine is in handler code (-1: never within 2 s)
+	WindowMs        int64  `json:"window_ms"`
+	ReadTimeoutMs   int64  `json:"read_timeout_ms"`
+	HeaderTimeoutMs int64  `json:"read_header_timeout_ms"`
+}
+
+func handlerFrame() string {
+	buf := make([]byte, 1<<20)
+	buf = buf[:runtime.Stack(buf, true)]
+	for _, g := range strings.Split(string(buf), "\n\n") {
+		if !strings.Contains(g, "net/http.(*conn).serve") {
+			continue
+		}
+		for _, ln := range strings.Split(g, "\n") {
+			if strings.HasPrefix(ln, "github.com/metrico/qryn/writer/controller") || strings.HasPrefix(ln, "github.com/metrico/qryn/writer/utils/unmarshal") {
+				if i := strings.Index(ln, "("); i > 0 {
+					ln = ln[:i]
+				}
+				return strings.TrimPrefix(ln, "github.com/metrico/qryn/writer/")
+			}
+		}
+	}
+	return ""
+}
+
+func stallMode(outPath string, window, readTimeout, headerTimeout time.Duration, all bool) {
+	devnull, _ := os.OpenFile(os.DevNull, os.O_WRONLY, 0)
+	stdout := os.Stdout
+	os.Stdout = devnull
+	router := setup()
+	ln, err := net.Listen("tcp", "127.0.0.1:0")
+	if err != nil {
+		panic(err)
+	}
+	go func() {
+		if readTimeout == 0 && headerTimeout == 0 {
+			http.Serve(ln, router) // as main.go httpStart
+		} else {
+			(&http.Server{Handler: router, ReadTimeout: readTimeout, ReadHeaderTimeout: headerTimeout}).Serve(ln)
+		}
+	}()
+	addr := ln.Addr().String()
+	r := rand.New(rand.NewSource(11))
+	pp := validPprof(r)
+	okSpans := []ZSpan{{Tid: &ZField{Str: randHex(r, 32)}, Sid: &ZField{Str: randHex(r, 16)}, Ts: "num", Dur: "num"}}
+	routes := []struct {
+		name, path, ct string
+		body           []byte
+	}{
+		{"loki-json", "/loki/api/v1/push", "application/json", lokiJSONBody(false)},
+		{"remote-write", "/api/v1/prom/remote/write", "application/x-protobuf", snappy.Encode(nil, promBody(r, 0))},
+		{"zipkin", "/tempo/spans", "application/json", zipkinBody(okSpans, false)},
+		{"otlp", "/v1/traces", "application/x-protobuf", otlpBody(r, []ORes{{HasResource: true, Spans: []OSpan{{TidLen: 16, SidLen: 8}}}})},
+		{"ingest-multipart", "/ingest?from=1700000000&until=1700000010&name=app", "multipart/form-data; boundary=vfb0undary", multipartBody("profile", pp, "vfb0undary")},
+		{"elastic-bulk", "/_bulk", "application/json", []byte("{\"index\":{\"_index\":\"logs\"}}\n{\"message\":\"hello\"}\n")},
+	}
+	canary := func() string {
+		cp, ct, cb := canaryFor("/loki/api/v1/push")
+		// a fresh connection per canary: with the scaled-down ReadTimeout (= idle timeout) the server closes kept-alive ones
+		cl := &http.Client{Timeout: 3 * time.Second, Transport: &http.Transport{DisableKeepAlives: true}}
+		resp, err := cl.Post("http://"+addr+cp, ct, bytes.NewReader(cb))
+		if err != nil {
+			return "error: " + err.Error()
+		}
+		resp.Body.Close()
+		return classOf(resp.StatusCode)
+	}
+	var cases []StallCase
+	id := 0
+	for _, rt := range routes {
+		sents := []int{len(rt.body) / 2, len(rt.body)}
+		if all {
+			sents = []int{0, len(rt.body) / 2, len(rt.body) - 1, len(rt.body)}
+		}
+		for _, sent := range sents {
+			cases = append(cases, StallCase{ID: id, Route: rt.name, Path: rt.path, CT: rt.ct, Total: len(rt.body), Sent: sent})
+			id++
+		}
+	}
+	bodies := map[string][]byte{}
+	for _, rt := range routes {
+		bodies[rt.name] = rt.body
+	}
+	out := hx.OpenOut(outPath)
+	if outPath == "-" || outPath == "" {
+		os.Stdout = stdout
+		out = hx.OpenOut("-")
+	}
+	for i := range cases {
+		c := &cases[i]
+		conn, err := net.Dial("tcp", addr)
+		if err != nil {
+			panic(err)
+		}
+		fmt.Fprintf(conn, "POST %s HTTP/1.1\r\nHost: x\r\nContent-Type: %s\r\nContent-Length: %d\r\n\r\n", c.Path, c.CT, c.Total)
+		conn.Write(bodies[c.Route][:c.Sent])
+		answered := make(chan int, 1)
+		go func() {
+			resp, err := http.ReadResponse(bufio.NewReader(conn), nil)
+			if err != nil {
+				answered <- 0
+				return
+			}
+			answered <- resp.StatusCode
+		}()
+		o := &StallObs{WindowMs: window.Milliseconds(), ReadTimeoutMs: readTimeout.Milliseconds(), HeaderTimeoutMs: headerTimeout.Milliseconds(), ReleasedMs: -1}
+		t1 := time.Now()
+		time.Sleep(30 * time.Millisecond)
+		o.CanaryDuring = canary()
+		select {
+		case st := <-answered:
+			o.Answered, o.Status = st != 0, st
+			if d := window - time.Since(t1); st == 0 && d > 0 {
+				time.Sleep(d) // the server closed the connection without a response: still observe at the end of the window
+			}
+		case <-time.After(window - time.Since(t1)):
+		}
+		o.Where = handlerFrame()
+		o.StuckInHandler = o.Where != ""
+		t0 := time.Now()
+		conn.Close()
+		for k := 0; k < 2000; k++ {
+			if handlerFrame() == "" {
+				o.ReleasedMs = time.Since(t0).Milliseconds()
+				break
+			}
+			time.Sleep(time.Millisecond)
+		}
+		c.Obs = o
+		out.Put(c)
+	}
+	out.Close()
+	os.Exit(0)
+}
+
 func main() {
 	workerMode := flag.Bool("worker", false, "run cases in this process (child of the supervisor)")
 	from := flag.Int("from", 0, "worker: index of the first case to run")
@@ -1429,7 +1911,19 @@ func main() {
 	deadlineMs := flag.Int("deadline-ms", 3000, "per-request deadline")
 	phrasesFile := flag.String("phrases-file", "", `JSON {"phrases":[...]}: texts the repository compares error texts with`)
 	maxBad := flag.Int("max-bad", 0, "stop after this many crash/hang/leak observations (0 = never)")
+	nframe := flag.Int("nframe", 0, "number of cases of stream frame (NDJSON bodies: line lengths around 64 KiB / 16 MiB, refused lines, unterminated rest, failing reader)")
+	nlimit := flag.Int("nlimit", 0, "number of cases of stream limit (payloads of an exact decoded size around the decoded-size limit, plain / gzip / snappy)")
+	flag.IntVar(&decodedLimit, "decoded-limit", decodedLimit, "pbPool.limit the router runs with, bytes (helpers.SetGlobalLimit(2*this))")
+	stall := flag.Bool("stall", false, "stalled-body scenarios over a real listener (see stallMode)")
+	stallAll := flag.Bool("stall-all", false, "stall: also the cases with 0 and len-1 bytes sent")
+	stallWindowMs := flag.Int("stall-window-ms", 1200, "stall: how long the client stays silent before the observation")
+	readTimeoutMs := flag.Int("read-timeout-ms", 0, "stall: http.Server.ReadTimeout of the source (0 = not set, as http.Serve)")
+	readHeaderTimeoutMs := flag.Int("read-header-timeout-ms", 0, "stall: http.Server.ReadHeaderTimeout of the source (0 = not set)")
 	f := hx.ParseFlags()
+	if *stall {
+		stallMode(f.Out, time.Duration(*stallWindowMs)*time.Millisecond, time.Duration(*readTimeoutMs)*time.Millisecond, time.Duration(*readHeaderTimeoutMs)*time.Millisecond, *stallAll)
+		return
+	}
 	deadline := time.Duration(*deadlineMs) * time.Millisecond
 	if *phrasesFile != "" {
 		var pf struct {
@@ -1464,6 +1958,12 @@ func main() {
 		}
 		for i := 0; i < *ngeneric; i++ {
 			cases = append(cases, genGeneric(r, f.N+*nbytes+i))
+		}
+		for i := 0; i < *nlimit; i++ {
+			cases = append(cases, genLimit(r, f.N+*nbytes+*ngeneric+i))
+		}
+		for i := 0; i < *nframe; i++ {
+			cases = append(cases, genFrame(r, f.N+*nbytes+*ngeneric+*nlimit+i))
 		}
 	}
 	tmp := f.Out + ".cases"
